@@ -773,7 +773,7 @@ func checkLDAPVerdict(c *km.Ctx, s *km.Sem, pa, upd *ssa.Function) {
 	}
 	// ---- the directory is asked about the submitted credentials
 	for _, l := range ldapCalls {
-		la := l.Common().Args
+		la := km.CallArgs(l.Common())
 		bindOK := false
 		if bc, ok := km.Unwrap(la[1]).(*ssa.Call); ok && km.CalleeFull(bc.Common()) == ldapPkg+".convertToBindDN" && tagOf(bc.Common().Args[0]) == "user" {
 			bindOK = true
